@@ -93,6 +93,7 @@ class Runner:
         out, res = T.apply_op(op, self.regs)
         e = T.event_of(op, out, res, self.sym, None)
         self.ev.append(e)
+        op['reg'] = bool(out == 'ok' and e['out'] == 'ok')      # whether this op defines a register (re-executions keep the numbering aligned)
         self.prog.ops.append(op)
         if out == 'ok' and e['out'] == 'ok':
             self.regs.append(res)
